@@ -28,7 +28,7 @@ CHUNK = 4
 
 def bounds(tier):
     return {"shapes": SH_T if tier == "thorough" else SH_Q, "coils": [2, 3, 4, 8], "calib/kernel": CK,
-            "thresh": [0.02, 0.05, 0.5], "crop": [0, 0.8, 0.95, 1.1], "data": ["gaussian seeds 0..3" if tier == "quick" else "gaussian seeds 0..7", "birdcage x ones", "birdcage x bump"],
+            "thresh": [0.02, 0.05, 0.5], "crop": [0, 0.8, 0.95, 1.1], "data": ["gaussian seeds 0..3" if tier == "quick" else "gaussian seeds 0..7", "birdcage x ones", "birdcage x bump", "birdcage with one zero coil (first / last)"],
             "max_iter": [30, 100], "dtype": ["complex64", "complex128"],
             "mixed pad/crop": "8 non-square shapes whose calibration width lies between the two axis lengths (4 with calib**2 == voxels)",
             "locality": "13 (shape, calib) pairs with k-space outside the centred calibration block replaced: maps must not change"}
@@ -92,6 +92,13 @@ def gen_cases(tier, seed):
             for data in ("g0", "ones"):
                 cases.append(dict(kind="locality", shape=sh, nc=nc, calib=cw, kernel=kw, thresh=0.02, crop=0.8, data=data,
                                   dtype="c128", max_iter=30))
+    # degenerate data: one coil's k-space is exactly zero (first coil: the phase reference is zero everywhere)
+    for sh in ([8, 8], [12, 12], [9, 10]):
+        for nc in (2, 4):
+            for data in ("ones-dead0", "ones-deadL", "bump-dead0"):
+                for crop in (0, 0.8):
+                    for dt in ("c64", "c128"):
+                        cases.append(dict(kind="espirit", shape=sh, nc=nc, calib=8, kernel=3, thresh=0.02, crop=crop, data=data, dtype=dt, max_iter=30))
     # threshold ties: crop set EXACTLY to the eigenvalue of one voxel (taken from a first run with crop=0);
     # "zero where the eigenvalue does not exceed the crop threshold" => that voxel must be zero
     for sh in ([8, 8], [9, 10]):
@@ -113,6 +120,9 @@ def make_ksp(case, seed):
         ksp = (r.standard_normal([nc] + sh) + 1j * r.standard_normal([nc] + sh)).astype(dt)
         return ksp, None
     mps = mr.sim.birdcage_maps([nc] + sh).astype(np.complex128)
+    if "-dead" in d:
+        d, which = d.split("-dead")
+        mps[0 if which == "0" else nc - 1] = 0      # a coil that sees nothing: zero map, zero k-space
     if d == "ones":
         img = np.ones(sh)
     else:
